@@ -35,7 +35,7 @@ def run(tier, seed, replay=None):
     build = common.build_repo("rel")
     work = common.new_workdir("c07")
     n = 120 if tier == "quick" else 1200
-    cases = harness.gen_cases(seed, 7, n, lambda rng, i: gen.gen_opt_program(rng, refs=(i % 3 == 2), exprs=(i % 3 == 1)))
+    cases = harness.gen_cases(seed, 7, n, lambda rng, i: gen.gen_opt_program(rng, refs=(i % 3 == 2), exprs=(i % 3 == 1), glyph_bw=(i % 6 == 1)))
     results = harness.compile_cases(build, work, cases)
     # what does the spec say about references into omitted groups?
     pre = {}
